@@ -245,8 +245,9 @@ def check_sec_post(pre_d, pre_s, post, strict, path, problems):
         check_sec_post(dc if dc is not None else EMPTY_SEC, sc, cands[0], strict, path + '/' + nm, problems)
 
 
-def judge(col, name, kind_label, dest, src, strict, witness, feature, merge_fn):
-    """Run dest.merge(src, strict) and evaluate the whole contract.  kind_label: 'section' | 'property'."""
+def judge(col, name, kind_label, dest, src, strict, witness, feature, merge_fn, context=''):
+    """Run dest.merge(src, strict) and evaluate the whole contract.  kind_label: 'section' | 'property'.
+    context: suffix of the feature label naming the surroundings of the feature (name sharing mode ...)."""
     snapper = h.snap_sec if kind_label == 'section' else h.snap_prop
     pre_d, pre_s = snapper(dest, True, False), snapper(src, True, False)
     full_d, full_s = h.snap(dest), h.snap(src)
@@ -264,7 +265,7 @@ def judge(col, name, kind_label, dest, src, strict, witness, feature, merge_fn):
     base = {'strict': strict, 'kind': kind_label}
 
     def fail(clause, feat, detail):
-        col.fail(check='%s/%s' % (name, clause), cls={'clause': clause, 'feature': feat},
+        col.fail(check='%s/%s' % (name, clause), cls={'clause': clause, 'feature': feat + context},
                  witness=dict(witness, **base), detail=detail)
 
     if kind == 'exc':
@@ -429,8 +430,107 @@ def inject(pair, feature, where):
         s.update(spart)
 
 
+# ---------------------------------------------------------------------------------------------
+# naming of the children: names are unique per child list only, so a Section may have a child Section and a
+# child Property of one name, a Property named like the Section it lives in, and children whose names differ
+# in case / white space only from other children.  A sharing mode is applied to EVERY node of both trees
+# (matched, dest only and src only subtrees alike), after the features have been injected, so that the feature
+# Property takes part as well.
+# ---------------------------------------------------------------------------------------------
+
+SHARING = ['none',
+           'property-named-like-section:dest',      # dest: a Property for every child Section name of dest or src, and
+           'property-named-like-section:src',       # one named like the Section itself;  :src / :both likewise
+           'property-named-like-section:both',
+           'section-named-like-property:dest',      # dest: a child Section for every Property name of dest or src
+           'section-named-like-property:src',
+           'section-named-like-property:both',
+           'all-names-shared',                      # both of the above on both sides
+           'near-miss-names']                       # src: extra children named like dest's up to case / white space
+
+
+def _union(*lists):
+    out = []
+    for lst in lists:
+        for x in lst:
+            if x not in out:
+                out.append(x)
+    return out
+
+
+def share_names(d, s, mode):
+    """d, s: Section specs that are counterparts of each other (one may be None).  Changes the specs in place."""
+    if mode == 'none':
+        return
+    kind, _, side = mode.partition(':')
+    if kind == 'all-names-shared':
+        side = 'both'
+    sides = [(tag, x) for tag, x in (('dest', d), ('src', s)) if x is not None and side in (tag, 'both')]
+    present = [x for x in (d, s) if x is not None]
+    sec_names = _union(*[[c['name'] for c in x['secs']] for x in present])
+    prop_names = _union(*[[p['name'] for p in x['props']] for x in present])
+    dsecs = {c['name']: c for c in (d['secs'] if d is not None else [])}
+    ssecs = {c['name']: c for c in (s['secs'] if s is not None else [])}
+    matched = [(dsecs.get(n), ssecs.get(n)) for n in sec_names]
+    if kind in ('property-named-like-section', 'all-names-shared'):
+        for i, n in enumerate(sec_names + [x['name'] for x in present]):
+            for tag, x in sides:
+                if any(p['name'] == n for p in x['props']):
+                    continue
+                p = P(n, 'string', ['%s property named like a section' % tag],
+                      definition='shares its name' if tag == 'src' else None)
+                x['props'].insert(0 if i % 2 == 0 else len(x['props']), p)
+    if kind in ('section-named-like-property', 'all-names-shared'):
+        for i, n in enumerate(prop_names):
+            for tag, x in sides:
+                if any(c['name'] == n for c in x['secs']):
+                    continue
+                c = S(n, 'ns', definition='section named like a property' if tag == 'src' else None,
+                      props=[P('v', 'int', [1] if tag == 'dest' else [2], unit='mV' if tag == 'src' else None)])
+                x['secs'].insert(0 if i % 2 else len(x['secs']), c)
+    if kind == 'near-miss-names' and d is not None and s is not None:
+        for c in d['secs']:
+            for variant in (c['name'].upper(), c['name'] + ' '):
+                if variant != c['name'] and variant not in ssecs and variant not in dsecs:
+                    s['secs'].append(S(variant, c['type'], definition='near miss of %r' % c['name'],
+                                       props=[P('nm', 'int', [1])]))
+        have = {p['name'] for p in s['props']} | {p['name'] for p in d['props']}
+        for p in d['props']:
+            for variant in (p['name'].upper(), ' ' + p['name']):
+                if variant not in have:
+                    # would be in conflict with the dest Property if the two were (wrongly) taken for one
+                    s['props'].append(P(variant, 'string', ['near miss'], unit='zz', definition='near miss of %r' % p['name']))
+    for dc, sc in matched:
+        share_names(dc, sc, mode)
+
+
 def count_nodes(forest):
     return sum(1 + count_nodes(sub) for sub in forest)
+
+
+def parents_of(shape):
+    """pre-order number -> pre-order number of the parent (root = 0)."""
+    par = {}
+    counter = itertools.count(1)
+
+    def rec(forest, up):
+        for sub in forest:
+            k = next(counter)
+            par[k] = up
+            rec(sub, k)
+    rec(shape, 0)
+    return par
+
+
+def relation_class(shape, a, b):
+    """a < b in pre-order: is a an ancestor of b, or does it sit in the subtree of an earlier sibling?"""
+    par = parents_of(shape)
+    k, dist = b, 0
+    while k != 0 and k != a:
+        k, dist = par[k], dist + 1
+    if k == a:
+        return 'ancestor-%d-above' % dist
+    return 'earlier-branch'
 
 
 def position_class(shape, pos):
@@ -456,34 +556,104 @@ def position_class(shape, pos):
 # run_*
 # ---------------------------------------------------------------------------------------------
 
+CORE = ['plain-new-value', 'fill-all-attributes', 'dtype-conflict-string-into-int', 'dtype-unconvertible-string-into-int',
+        'unit-conflict', 'uncertainty-conflict', 'definition-conflict', 'definition-case-whitespace-only',
+        'reference-conflict', 'value_origin-conflict']
+# ordered pairs: something the merge changes (or cannot merge) at an earlier / higher node ...
+EARLIER = ['section-same-name-different-type', 'fill-all-attributes', 'dest-empty-no-dtype', 'dtype-conflict-string-into-int']
+# ... and one conflict of every kind at a later / deeper node
+LATER = ['dtype-conflict-string-into-int', 'dtype-unconvertible-string-into-int', 'unit-conflict', 'uncertainty-conflict',
+         'definition-conflict', 'reference-conflict', 'value_origin-conflict', 'section-definition-conflict',
+         'section-reference-conflict', 'section-same-name-different-type']
+
+
+def _feature(label):
+    return next(f for f in PROP_FEATURES + SEC_FEATURES if f[0] == label)
+
+
+def _ctx(mode):
+    return '' if mode == 'none' else ' | names: ' + mode
+
+
+def _one(col, name, shape, injections, mode, strict, wit, label):
+    """Build the pair (skeleton + injected features + naming mode), merge, judge.  injections: [(pos, feature, where)]."""
+    droot, sroot, pairs = skeleton_specs(shape)
+    for pos, feature, where in injections:
+        inject(pairs[pos], feature, where)
+    share_names(droot, sroot, mode)
+    with h.quiet():
+        dest, src = build_sec(droot), build_sec(sroot)
+    return judge(col, name, 'section', dest, src, strict, wit, label, dest.merge, context=_ctx(mode))
+
+
 def run_section_merge(tier, seed):
     name = 'C13.section_merge'
     max_nodes = 3 if tier == 'quick' else 4
-    col = Col(name, rule='every forest shape up to %d skeleton nodes (each node present in both trees with fillable '
-                         'attributes, a shared Property, one-sided Properties and one-sided child Sections) x every '
-                         'node position (root included) x every feature (%d Property features at first/last Property '
-                         'position, %d Section features) x strict on/off; thorough adds pairs of features and randomly '
-                         'thinned overlap; distinct = (feature, position class, strict, outcome)'
-                         % (max_nodes, len(PROP_FEATURES), len(SEC_FEATURES)), exhaustive=True)
+    col = Col(name, rule='(1) every forest shape up to %d skeleton nodes (each node present in both trees with fillable '
+                         'attributes, a shared Property, one-sided Properties and one-sided child Sections, an earlier '
+                         'sibling that dest lacks) x every node position (root included) x every feature (%d Property '
+                         'features at first/last Property position, %d Section features) x strict on/off; '
+                         '(2) the same x every naming mode of the children (%d modes: Property named like a sibling '
+                         'Section / like its own Section, Section named like a sibling Property, on dest, src or both, '
+                         'at every node of both trees; names differing in case or white space only) x %d core features '
+                         '+ all Section features; (3) ordered pairs of features: %d earlier/higher (something merge '
+                         'changes or cannot merge) x %d later/deeper conflicts at every pair of positions a < b, plain '
+                         'and with all names shared; (4) random: 1-3 features, thinned overlap, random naming mode, '
+                         'trees attached to documents; distinct = (feature(s), naming mode, position class, strict, outcome)'
+                         % (max_nodes, len(PROP_FEATURES), len(SEC_FEATURES), len(SHARING) - 1, len(CORE),
+                            len(EARLIER), len(LATER)), exhaustive=True)
     features = [(f, w) for f in PROP_FEATURES for w in ('first', 'last')] + [(f, None) for f in SEC_FEATURES]
+    type_features = ('section-same-name-different-type', 'section-type-case-only')
+    # ---- (1) one feature, disjoint names
     for shape in h.tree_shapes(max_nodes):
         n = count_nodes(shape)
         for pos in range(n + 1):
             for feature, where in features:
                 if tier == 'quick' and n == max_nodes and where == 'last':
                     continue        # quick: largest skeletons with the feature Property in first position only
-                if pos == 0 and feature[0] in ('section-same-name-different-type', 'section-type-case-only'):
+                if pos == 0 and feature[0] in type_features:
                     continue        # type/name of the two roots are free
                 for strict in (True, False):
-                    droot, sroot, pairs = skeleton_specs(shape)
-                    inject(pairs[pos], feature, where)
-                    with h.quiet():
-                        dest, src = build_sec(droot), build_sec(sroot)
                     wit = {'shape': repr(shape), 'position': pos, 'feature': feature[0], 'property_position': where}
-                    outcome = judge(col, name, 'section', dest, src, strict, wit, feature[0], dest.merge)
+                    outcome = _one(col, name, shape, [(pos, feature, where)], 'none', strict, wit, feature[0])
                     col.case(cls_key=(feature[0], where, position_class(shape, pos), strict, outcome),
                              sample='%s pos %d %s strict=%s -> %s' % (shape, pos, feature[0], strict, outcome))
-    # attached variants: dest and src live in documents (merge must not disturb anything around them)
+    # ---- (2) one feature x naming mode
+    core = [(_feature(l), 'first' if i % 2 == 0 else 'last') for i, l in enumerate(CORE)] + [(f, None) for f in SEC_FEATURES]
+    for mode in SHARING[1:]:
+        for shape in h.tree_shapes(max_nodes):
+            n = count_nodes(shape)
+            for pos in range(n + 1):
+                if tier == 'quick' and n == max_nodes and pos != n:
+                    continue        # quick: largest skeletons with the feature at the last (deepest / right-most) node only
+                for feature, where in core:
+                    if pos == 0 and feature[0] in type_features:
+                        continue
+                    for strict in (True, False):
+                        wit = {'shape': repr(shape), 'position': pos, 'feature': feature[0], 'property_position': where,
+                               'names': mode}
+                        outcome = _one(col, name, shape, [(pos, feature, where)], mode, strict, wit, feature[0])
+                        col.case(cls_key=(feature[0], mode, position_class(shape, pos), strict, outcome),
+                                 sample='%s pos %d %s names %s strict=%s -> %s' % (shape, pos, feature[0], mode, strict, outcome)
+                                 if mode == SHARING[1] else None)
+    # ---- (3) ordered pairs of features
+    pair_nodes = max_nodes - 1
+    for shape in h.tree_shapes(pair_nodes):
+        n = count_nodes(shape)
+        for a in range(n + 1):
+            for b in range(a + 1, n + 1):
+                for la in EARLIER:
+                    if a == 0 and la in type_features:
+                        continue
+                    for lb in LATER:
+                        for mode in ('none', 'all-names-shared'):
+                            for strict in (True, False):
+                                label = '%s, then %s' % (la, lb)
+                                wit = {'shape': repr(shape), 'positions': [a, b], 'features': [la, lb], 'names': mode}
+                                outcome = _one(col, name, shape, [(a, _feature(la), 'first'), (b, _feature(lb), 'last')],
+                                               mode, strict, wit, label)
+                                col.case(cls_key=(la, lb, mode, relation_class(shape, a, b), strict, outcome))
+    # ---- (4) random: several features, thinned overlap, naming mode, dest and src living in documents
     rnd = random.Random('c13-%s' % seed)
     shapes = [s for s in h.tree_shapes(max_nodes) if count_nodes(s) >= 1]
     n_rand = 150 if tier == 'quick' else 3000
@@ -502,12 +672,14 @@ def run_section_merge(tier, seed):
         for _ in range(rnd.choice([1, 2, 2, 3])):
             pos = rnd.choice(live)
             feature, where = rnd.choice(features)
-            if pos == 0 and feature[0].startswith('section-') and 'type' in feature[0]:
+            if pos == 0 and feature[0] in type_features:
                 continue
             if any(l[0] == pos for l in labels):
                 continue
             inject(pairs[pos], feature, where)
             labels.append((pos, feature[0], where))
+        mode = rnd.choice(SHARING) if rnd.random() < 0.6 else 'none'
+        share_names(droot, sroot, mode)
         strict = rnd.random() < 0.5
         attached = rnd.random() < 0.5
         with h.quiet():
@@ -519,25 +691,21 @@ def run_section_merge(tier, seed):
                 src = build_sec(sroot, host if rnd.random() < 0.5 else doc)
             else:
                 dest, src = build_sec(droot), build_sec(sroot)
-        wit = {'shape': repr(shape), 'random': [seed, i], 'features': labels, 'thinned': choice, 'attached': attached}
-        feat = labels[0][1] if len(labels) == 1 else _attribute(name, shape, labels, strict, features)
-        outcome = judge(col, name, 'section', dest, src, strict, wit, feat, dest.merge)
-        col.case(cls_key=('random', tuple(sorted({l[1] for l in labels})), strict, outcome, thin, attached))
+        wit = {'shape': repr(shape), 'random': [seed, i], 'features': labels, 'thinned': choice, 'attached': attached,
+               'names': mode}
+        feat = labels[0][1] if len(labels) == 1 else _attribute(name, shape, labels, mode, strict)
+        outcome = judge(col, name, 'section', dest, src, strict, wit, feat, dest.merge, context=_ctx(mode))
+        col.case(cls_key=('random', tuple(sorted({l[1] for l in labels})), mode, strict, outcome, thin, attached))
     return col.result()
 
 
-def _attribute(name, shape, labels, strict, features):
+def _attribute(name, shape, labels, mode, strict):
     """Which of several injected features leaves a change behind when it is the only one?  Gives failures of
     random pairs the same (stable) feature label as the single-feature enumeration."""
     guilty = []
     for pos, flabel, where in labels:
-        feature = next(f for f, w in features if f[0] == flabel)
-        droot, sroot, pairs = skeleton_specs(shape)
-        inject(pairs[pos], feature, where)
-        with h.quiet():
-            dest, src = build_sec(droot), build_sec(sroot)
         scratch = Col('scratch', rule='')
-        judge(scratch, name, 'section', dest, src, strict, {}, flabel, dest.merge)
+        _one(scratch, name, shape, [(pos, _feature(flabel), where)], mode, strict, {}, flabel)
         if any(f['cls']['clause'] == 'raise-changes-nothing' for f in scratch.failures):
             guilty.append(flabel)
     return '+'.join(sorted(set(guilty))) or 'random-pair'
